@@ -256,14 +256,17 @@ def pair_sites(ctx, repo):
             if isinstance(it, ast.Call) and access_path(it.func) == "sorted" and len(it.args) == 1 and not [k for k in it.keywords if k.arg == "reverse"]:
                 z = it.args[0]
                 if isinstance(z, ast.Call) and access_path(z.func) == "zip" and [access_path(a) for a in z.args] == ps[-2:]:
-                    if isinstance(g.target, ast.Tuple) and len(g.target.elts) == 2 and access_path(v.elt) == access_path(g.target.elts[1]):
+                    tg = g.target
+                    second = access_path(tg.elts[1]) if isinstance(tg, ast.Tuple) and len(tg.elts) == 2 else ("%s[1]" % tg.id if isinstance(tg, ast.Name) else None)
+                    first = access_path(tg.elts[0]) if isinstance(tg, ast.Tuple) and len(tg.elts) == 2 else ("%s[0]" % tg.id if isinstance(tg, ast.Name) else None)
+                    if second is not None and text(v.elt) in (second, second.replace("[1]", "[-1]")):
                         ok = True
-                    else:
-                        detail = "returns %s of the sorted (key, partner) pairs instead of the partner component" % text(v.elt)
-                else:
-                    detail = "sorted over %s, expected zip(%s, %s)" % (text(z), ps[-2], ps[-1])
-            elif isinstance(it, ast.Call) and access_path(it.func) == "sorted":
-                detail = "sorted with reverse/other options"
+                    elif first is not None and text(v.elt) in (first, first.replace("[0]", "[-2]")):
+                        detail = "returns %s of the sorted (key, partner) pairs, the key component, instead of the partner component" % text(v.elt)
+                elif isinstance(z, ast.Call) and access_path(z.func) == "zip" and [access_path(a) for a in z.args] == ps[-2:][::-1]:
+                    detail = "sorted over %s, expected zip(%s, %s): the partner list would be sorted by itself" % (text(z), ps[-2], ps[-1])
+            elif isinstance(it, ast.Call) and access_path(it.func) == "sorted" and any(k.arg == "reverse" and is_const(k.value) and const_value(k.value) is True for k in it.keywords):
+                detail = "sorted in descending order: the partner list does not follow the ascending order of the keys"
     if ok:
         ctx.holds("R3", "Results.sort_list", where(mod, fn), "returns the partner components of sorted(zip(keys, partner))", key="sort_list")
     elif detail == "unrecognised":
@@ -329,134 +332,140 @@ def cond_cases(test):
 
 
 def r4_find_optimum(ctx, repo):
+    """finite case split over the cost entry of the requested goal (criteria absent / 'minimize' / 'maximize'): along every
+    path the guards and bindings that depend only on that entry are evaluated concretely for the case, which prunes the
+    paths the case cannot take and tells which of min / max is applied to the recorded individuals"""
+    from ..astutil import ceval, NotEvaluable
     rc = repo.cls("Results", "results")
     mod = rc.module
-    fn = rc.methods.get("find_optimum")
-    if fn is None:
+    fn0 = rc.methods.get("find_optimum")
+    if fn0 is None:
         raise AnalysisError("Results.find_optimum not found")
     C = "Results.find_optimum"
+    # the cost entry: <...>.problem.costs[<index>]; remember which index expressions are used
+    idx_texts = set()
+
+    class CostEntry(ast.NodeTransformer):
+        def visit_Subscript(self, n):
+            self.generic_visit(n)
+            if (access_path(n.value) or "").endswith(".problem.costs") and not isinstance(n.slice, ast.Slice) and isinstance(n.ctx, ast.Load):
+                idx_texts.add(text(n.slice))
+                return ast.copy_location(ast.Name(id="__cost", ctx=ast.Load()), n)
+            return n
+    import copy as _copy
+    fn = CostEntry().visit(_copy.deepcopy(fn0))
+    ast.fix_missing_locations(fn)
+    local_defs = {nd.name: nd for nd in ast.walk(fn) if isinstance(nd, ast.FunctionDef) and nd is not fn}
+    CASES = (("absent", {}, "min"), ("minimize", {"criteria": "minimize"}, "min"), ("maximize", {"criteria": "maximize"}, "max"))
     table = []
-    bad = None
-    unsure = None
-    n = 0
-    n_picks = 0
+    bad = unsure = None
+    n_paths = n_picks = 0
 
-    def classify(atom, val, st):
-        t = text(atom)
-        if isinstance(atom, ast.Compare) and "'minimize'" in t and "criteria" in t and isinstance(atom.ops[0], (ast.Eq, ast.NotEq)):
-            st["min"] = val if isinstance(atom.ops[0], ast.Eq) else not val
-        elif isinstance(atom, ast.Compare) and "'maximize'" in t and "criteria" in t and isinstance(atom.ops[0], (ast.Eq, ast.NotEq)):
-            st["max"] = val if isinstance(atom.ops[0], ast.Eq) else not val
-        elif isinstance(atom, ast.Compare) and "criteria" in t and isinstance(atom.ops[0], (ast.Is, ast.IsNot)) and "None" in t:
-            st["none"] = val if isinstance(atom.ops[0], ast.Is) else not val
-        elif isinstance(atom, ast.Compare) and isinstance(atom.ops[0], ast.In) and "'criteria'" in t:
-            st["has"] = val
-        elif isinstance(atom, ast.Compare) and isinstance(atom.ops[0], (ast.In, ast.NotIn)) and "criteria" in text(atom.left) \
-                and isinstance(atom.comparators[0], (ast.Tuple, ast.List, ast.Set)) and all(is_const(x) for x in atom.comparators[0].elts):
-            vals = [const_value(x) for x in atom.comparators[0].elts]
-            member = val if isinstance(atom.ops[0], ast.In) else not val
-            if set(vals) <= {"minimize", None} and "minimize" in vals:
-                # criteria in ('minimize', None): true -> minimise (or absent), false -> neither
-                if member:
-                    st["min"] = True
-                else:
-                    st["min"] = False
-                    if None in vals:
-                        st["none"] = False
-            elif vals == ["maximize"]:
-                st["max"] = member
+    def key_text(call):
+        key = [k.value for k in call.keywords if k.arg == "key"]
+        if not key:
+            return None
+        k = key[0]
+        if isinstance(k, ast.Name) and k.id in local_defs:
+            nd_ = local_defs[k.id]
+            body_ = [x for x in nd_.body if not (isinstance(x, ast.Expr) and isinstance(x.value, ast.Constant))]
+            if len(body_) == 1 and isinstance(body_[0], ast.Return) and len(nd_.args.args) == 1 and body_[0].value is not None:
+                return "lambda %s: %s" % (nd_.args.args[0].arg, text(body_[0].value))
+        return text(k)
 
-    for p in Enumerator(loop_counts=(0, 1)).function_paths(fn):
-        if p.outcome == "raise":
-            continue
-        n += 1
-        st = {}
-        crit_def_i = None       # event index where the criteria value is read from costs[<index var>]
-        crit_idx_var = None
-        aliases = {}            # name -> IfExp selecting min/max
-        picks = []
-        idx_assign = {}
-        for i, e in enumerate(p.events):
-            if e.kind == "guard":
-                classify(e.node, e.val, st)
-                if "'criteria'" in text(e.node) and ".problem.costs[" in text(e.node):
-                    for nd in ast.walk(e.node):
-                        if isinstance(nd, ast.Subscript) and (access_path(nd.value) or "").endswith(".problem.costs") and isinstance(nd.slice, ast.Name):
-                            crit_idx_var, crit_def_i = nd.slice.id, (i if crit_def_i is None else crit_def_i)
-            elif e.kind in ("stmt", "return"):
-                s_ = e.node
-                if isinstance(s_, ast.Assign) and len(s_.targets) == 1 and isinstance(s_.targets[0], ast.Name):
-                    tn = s_.targets[0].id
-                    idx_assign.setdefault(tn, []).append(i)
-                    if isinstance(s_.value, ast.IfExp) and {access_path(s_.value.body), access_path(s_.value.orelse)} == {"min", "max"}:
-                        aliases[tn] = s_.value
-                    elif access_path(s_.value) in ("min", "max"):
-                        aliases[tn] = access_path(s_.value)       # select = min  (on this path)
+    def live_calls(e, cenv):
+        """calls evaluated inside e when the decidable conditional sub-expressions take their branch for this case"""
+        if isinstance(e, ast.IfExp):
+            try:
+                t = bool(ceval(e.test, cenv))
+                yield from live_calls(e.test, cenv)
+                yield from live_calls(e.body if t else e.orelse, cenv)
+                return
+            except NotEvaluable:
+                pass
+        if isinstance(e, ast.Lambda):
+            return
+        if isinstance(e, ast.Call):
+            yield e
+        for c in ast.iter_child_nodes(e):
+            if isinstance(c, ast.expr) or isinstance(c, ast.keyword):
+                yield from live_calls(c.value if isinstance(c, ast.keyword) else c, cenv)
+
+    paths = [p for p in Enumerator(loop_counts=(0, 1)).function_paths(fn) if p.outcome != "raise"]
+    for cname_, cdict, want in CASES:
+        case_picks = 0
+        for p in paths:
+            cenv = {"__cost": cdict, "min": "min", "max": "max"}
+            feasible = True
+            idx_assign = {}
+            crit_read = None        # (event index, index variable) of the first read of the cost entry
+            picks = []
+            for i, e in enumerate(p.events):
+                if e.kind == "guard":
+                    try:
+                        if bool(ceval(e.node, cenv)) != bool(e.val):
+                            feasible = False
+                            break
+                    except NotEvaluable:
+                        pass
+                elif e.kind in ("stmt", "return"):
+                    s_ = e.node
+                    val = getattr(s_, "value", None)
+                    if isinstance(val, ast.expr):
+                        for c in live_calls(val, cenv):
+                            if c.args and (access_path(c.args[0]) or "").endswith(".problem.individuals"):
+                                try:
+                                    f_ = ceval(c.func, cenv)
+                                except NotEvaluable:
+                                    f_ = None
+                                picks.append((i, f_ if f_ in ("min", "max") else None, key_text(c), text(c.func)))
+                    if isinstance(s_, ast.Assign) and len(s_.targets) == 1 and isinstance(s_.targets[0], ast.Name):
+                        tn = s_.targets[0].id
+                        idx_assign.setdefault(tn, []).append(i)
+                        try:
+                            cenv[tn] = ceval(s_.value, cenv)
+                        except NotEvaluable:
+                            cenv.pop(tn, None)
+                    elif isinstance(s_, (ast.Assign, ast.AugAssign)):
+                        for t_ in (s_.targets if isinstance(s_, ast.Assign) else [s_.target]):
+                            for nm_ in ast.walk(t_):
+                                if isinstance(nm_, ast.Name) and isinstance(nm_.ctx, ast.Store):
+                                    cenv.pop(nm_.id, None)
+                                    idx_assign.setdefault(nm_.id, []).append(i)
+                if crit_read is None and e.node is not None and any(isinstance(x, ast.Name) and x.id == "__cost" for x in ast.walk(e.node) if not isinstance(e.node, (ast.For, ast.While, ast.If, ast.Try, ast.With))):
+                    crit_read = i
+            if not feasible:
+                continue
+            n_paths += 1
+            for i, f_, keyt, ftext in picks:
+                n_picks += 1
+                case_picks += 1
+                table.append({"case": cname_, "pick": f_ or ftext, "key": keyt})
+                if f_ is None:
+                    unsure = unsure or (p, "the selection function %s is not decided by the criteria of the goal" % ftext)
+                elif f_ != want:
+                    bad = bad or (p, "for criteria %s the optimum is taken with %s()" % ("minimize/absent" if want == "min" else "maximize", f_))
+                idx_vars = {t for t in idx_texts if t.isidentifier()}
+                if keyt is None or not any((".costs[%s]" % v) in keyt.replace(" ", "") for v in (idx_vars or {"index"})):
+                    if keyt is not None and ".costs[" in keyt:
+                        bad = bad or (p, "the optimum is not keyed by the named cost (key=%s)" % keyt)
                     else:
-                        aliases.pop(tn, None)
-                    if tn == "criteria" or "criteria" in tn:
-                        for nd in ast.walk(s_.value):
-                            if isinstance(nd, ast.Subscript) and (access_path(nd.value) or "").endswith(".problem.costs") and isinstance(nd.slice, ast.Name):
-                                crit_idx_var, crit_def_i = nd.slice.id, i
-                        # dict.get('criteria', default): absent -> default
-                        for c in calls_in(s_.value):
-                            if isinstance(c.func, ast.Attribute) and c.func.attr == "get" and c.args and is_const(c.args[0]) and const_value(c.args[0]) == "criteria":
-                                st["default"] = const_value(c.args[1]) if len(c.args) > 1 and is_const(c.args[1]) else None
-                for c in calls_in(s_):
-                    nm = access_path(c.func)
-                    if c.args and (access_path(c.args[0]) or "").endswith(".problem.individuals") and nm is not None:
-                        key = [k.value for k in c.keywords if k.arg == "key"]
-                        keyt = text(key[0]) if key else None
-                        if key and isinstance(key[0], ast.Name):
-                            # a local function used as key: its returned expression
-                            for nd_ in ast.walk(fn):
-                                if isinstance(nd_, ast.FunctionDef) and nd_ is not fn and nd_.name == key[0].id:
-                                    rr_ = [x for x in nd_.body if isinstance(x, ast.Return)]
-                                    if len(nd_.body) == 1 and rr_ and len(nd_.args.args) == 1:
-                                        keyt = "lambda %s: %s" % (nd_.args.args[0].arg, text(rr_[0].value))
-                        if nm in ("min", "max"):
-                            picks.append((i, nm, keyt, dict(st)))
-                        elif nm in aliases and isinstance(aliases[nm], str):
-                            picks.append((i, aliases[nm], keyt, dict(st)))
-                        elif nm in aliases:
-                            ife = aliases[nm]
-                            for atoms, val in cond_cases(ife.test):
-                                st2 = dict(st)
-                                for a_, v_ in atoms:
-                                    classify(a_, v_, st2)
-                                # criteria absent <=> criteria is None (the variable starts as None and is only set when present)
-                                if st2.get("has") is False and (st2.get("none") is False or st2.get("min") or st2.get("max")):
-                                    continue
-                                picks.append((i, access_path(ife.body if val else ife.orelse), keyt, st2))
-        for i, nm, keyt, st_ in picks:
-            n_picks += 1
-            if st_.get("has") is False or st_.get("none") is True:
-                want_min = True
-            elif st_.get("min") is True:
-                want_min = True
-            elif st_.get("max") is True or st_.get("min") is False:
-                want_min = False
-            else:
-                want_min = None
-            table.append({"state": st_, "pick": nm, "key": keyt})
-            if want_min is None:
-                unsure = unsure or (p, "the direction of the optimum is chosen without consulting the criteria")
-            elif (nm == "min") != want_min:
-                bad = bad or (p, "for criteria %s the optimum is taken with %s()" % ("minimize/absent" if want_min else "maximize", nm))
-            if keyt is None or ".costs[index]" not in keyt.replace(" ", ""):
-                bad = bad or (p, "the optimum is not keyed by the named cost (key=%s)" % keyt)
-            # the criteria must belong to the goal that is optimised: no re-binding of its index variable in between
-            if crit_def_i is not None and crit_idx_var is not None:
-                later = [j for j in idx_assign.get(crit_idx_var, []) if crit_def_i < j < i]
-                if later:
-                    bad = bad or (p, "the optimisation direction is read from costs[%s] before `%s` is set to the requested goal: a named goal is optimised in the direction of another goal" % (crit_idx_var, crit_idx_var))
-    ctx.extra["find_optimum_table"] = table
+                        unsure = unsure or (p, "key function %s not recognised" % keyt)
+                # the criteria must belong to the goal that is optimised: no re-binding of its index variable in between
+                if crit_read is not None:
+                    for v in idx_vars:
+                        later = [j for j in idx_assign.get(v, []) if crit_read < j < i]
+                        if later:
+                            bad = bad or (p, "the optimisation direction is read from costs[%s] before `%s` is set to the requested goal: a named goal is optimised in the direction of another goal" % (v, v))
+        if case_picks == 0:
+            unsure = unsure or (None, "no min()/max() selection over problem.individuals found for criteria %s" % cname_)
+    ctx.extra["find_optimum_table"] = table[:40]
     if bad:
-        ctx.violated("R4", C, where(mod, fn), bad[1] + " on the path [%s]" % bad[0].describe(6))
+        ctx.violated("R4", C, where(mod, fn0), bad[1] + " on the path [%s]" % bad[0].describe(6))
     elif n_picks == 0 or unsure:
-        ctx.inconclusive("R4", C, where(mod, fn), unsure[1] if unsure else "no min()/max() selection over problem.individuals found")
+        ctx.inconclusive("R4", C, where(mod, fn0), (unsure[1] + ((" on the path [%s]" % unsure[0].describe(6)) if unsure[0] is not None else "")) if unsure else "no min()/max() selection over problem.individuals found")
     else:
-        ctx.holds("R4", C, where(mod, fn), "minimise/absent -> min, else max, keyed by costs[index] of the requested goal, over problem.individuals (%d paths, %d selections)" % (n, n_picks))
+        ctx.holds("R4", C, where(mod, fn0), "criteria absent / 'minimize' -> min, 'maximize' -> max, keyed by costs[index] of the requested goal, over problem.individuals (%d feasible case-paths, %d selections)" % (n_paths, n_picks))
 
 
 # ------------------------------------------------------------------ R5
